@@ -705,14 +705,8 @@ func (p *nfs41Program) opSequence(ctx context.Context, args *nfsv4.Sequence4args
 		// of the previous call, only after making sure that the
 		// cached response has the same shape as the request.
 		defer p.leave()
-		cachedResults := slot.lastResult.resArray[1:]
-		if len(cachedResults) > len(argArray) || (slot.lastResult.status == nfsv4.NFS4_OK && len(cachedResults) != len(argArray)) {
+		if !slot.lastResult.hasSameShapeAs(argArray) {
 			return sequenceCompoundResultSeqFalseRetry
-		}
-		for i, res := range cachedResults {
-			if opNum := res.GetResop(); opNum != argArray[i].GetArgop() && opNum != nfsv4.OP_ILLEGAL {
-				return sequenceCompoundResultSeqFalseRetry
-			}
 		}
 		return slot.lastResult
 	case slot.lastSequenceID + 1:
@@ -722,7 +716,11 @@ func (p *nfs41Program) opSequence(ctx context.Context, args *nfsv4.Sequence4args
 			ch := make(chan compoundResult, 1)
 			slot.currentSequenceWaiters = append(slot.currentSequenceWaiters, ch)
 			p.leave()
-			return <-ch
+			result := <-ch
+			if !result.hasSameShapeAs(argArray) {
+				return sequenceCompoundResultSeqFalseRetry
+			}
+			return result
 		}
 
 		// Throw away the previously cached results, as we know
@@ -1125,6 +1123,23 @@ func (p *nfs41Program) opSequence(ctx context.Context, args *nfsv4.Sequence4args
 		p.leave()
 		return sequenceCompoundResultSeqMisordered
 	}
+}
+
+// hasSameShapeAs returns whether the results of a previously executed
+// SEQUENCE compound may be the response to a request consisting of the
+// provided operations. This is used to detect false retries: requests
+// that reuse a slot and sequence ID, but have different contents.
+func (r *compoundResult) hasSameShapeAs(argArray []nfsv4.NfsArgop4) bool {
+	results := r.resArray[1:]
+	if len(results) > len(argArray) || (r.status == nfsv4.NFS4_OK && len(results) != len(argArray)) {
+		return false
+	}
+	for i, res := range results {
+		if opNum := res.GetResop(); opNum != argArray[i].GetArgop() && opNum != nfsv4.OP_ILLEGAL {
+			return false
+		}
+	}
+	return true
 }
 
 // nfs41FileHandle contains information on the current or saved file
